@@ -220,6 +220,9 @@ def run(ctx):
     ctx.log("validated %d events of %d scenarios; %d scenarios cut short (burst larger than the queue met an idle "
             "writer of a stalled consumer that was left unprimed, or the healthy consumer was swept while others "
             "were still connected)" % (len(rows), len(scen), len(skipped)))
+    tcp_ids = set(s["sc"] for s in scen if s["cfg"].get("tcp"))
+    if tcp_ids and tcp_ids <= set(skipped) and not rej:
+        raise E.Infra("every real-TCP scenario lost its healthy consumer before it could be judged (machine too loaded)")
     ctx.cov["traces_validated_against_impl"] = len(scen)
     ctx.cov["evaluations"] = len(rows)
     ctx.cov["distinct_nontrivial"] = len(scen) - len(skipped)
